@@ -204,8 +204,27 @@ class World:
     def pe(self, **kw):
         return PE(self.model, call_hook=self.hook, atoms_not_none=True, max_depth=8, **kw)
 
+    def snapshot(self, extra=()):
+        """the attribute tables (and registry contents) of every module of the world"""
+        snap = {}
+        for m in list(self.modules) + list(extra):
+            snap[m.name] = {k: (('dict', [(kk, id(vv)) for kk, vv in v.items()]) if isinstance(v, dict) else ('val', id(v) if not isinstance(v, (bool, int, str, type(None))) else v))
+                            for k, v in m.attrs.items()}
+        return snap
+
+    def changes(self, before, extra=()):
+        after = self.snapshot(extra)
+        out = []
+        for name, tab in after.items():
+            b = before.get(name, {})
+            for k in sorted(set(tab) | set(b)):
+                if tab.get(k) != b.get(k):
+                    out.append('%s.%s' % (name, k))
+        return out
+
     def run(self, obj, method, args=(), kw=None, max_paths=32):
         del WRITES[:]
+        self.before = self.snapshot()
         f = self.model.find_method(obj.pe_cls, method)
         if f is None:
             raise Incomplete('%s has no method %s' % (obj.pe_cls.qualname, method))
@@ -245,7 +264,8 @@ def check_world(model, R, P_='C12', rules=('ONCE', 'MODE', 'ORDER', 'REG', 'SEQ'
                 R.ob(rule, f.qualname, 'parameters() of a tree with a shared parameter and a shared submodule = %s' % _names(got), ok,
                      'parameters() must list own parameters first, then every submodule\'s in registration order, each object once (expected %s): a shared parameter reported twice is '
                      'double-counted by num_params and updated twice per optimizer step' % _names(w.params), f.loc)
-                writes = ['%s.%s' % x for x in WRITES]        # attribute assignments on the modules / parameters of the tree (helper objects of the call are not state)
+                # attribute assignments on / changed attribute tables of the modules and parameters of the tree (helper objects of the call are not state)
+                writes = sorted(set(['%s.%s' % x for x in WRITES] + w.changes(w.before)))
                 R.ob(rule, f.qualname, 'parameters() keeps no state on the modules: %s' % (writes or 'no writes'), not writes,
                      'a parameter list cached on the module is not invalidated when a descendant registers / replaces a parameter later', f.loc)
             for kwargs, sel, tag in (({}, lambda p: True, 'all'), ({'trainable': True}, lambda p: p.requires_grad, 'trainable'), ({'non_trainable': True}, lambda p: not p.requires_grad, 'non-trainable')):
@@ -276,7 +296,7 @@ def check_world(model, R, P_='C12', rules=('ONCE', 'MODE', 'ORDER', 'REG', 'SEQ'
                     continue
                 flags = {m.name: m.attrs.get('training') for m in w.modules}
                 ok = all(v is val for v in flags.values()) and o.value is w.root
-                other = ['%s.%s' % x for x in WRITES if x[1] != 'training']
+                other = sorted(set(['%s.%s' % x for x in WRITES if x[1] != 'training'] + [c for c in w.changes(w.before) if not c.endswith('.training')]))
                 R.ob(rule, f.qualname, '%s(): training flags %s, returns %s' % (name, flags, getattr(o.value, 'name', o.value)), ok and not other,
                      '%s() must set the flag of every module of the tree to %s (whatever it was), change nothing else and return self' % (name, val), f.loc)
             except Incomplete as u:
@@ -452,7 +472,7 @@ def zero_grad_outcome(model, qualname):
         return False, 'paths: %s' % [(o.kind, o.conds[:2]) for o in outs][:3]
     got = {p.name: p.zeroed for p in params}
     want = {p.name: (1 if p.requires_grad else 0) for p in params}
-    other = ['%s.%s' % x for x in WRITES]
+    other = sorted(set(['%s.%s' % x for x in WRITES] + (w.changes(w.before) if qualname.endswith('Module.zero_grad') else [])))
     flags = [p.name for p in params if p.flag_writes]
     return got == want and not other and not flags, 'zero_() calls %s%s%s' % (got, ', other writes %s' % other if other else '', ', requires_grad written on %s' % flags if flags else '')
 
